@@ -58,8 +58,24 @@ func applyDamage(r *Rand, data []byte, n int) ([]byte, []damage) {
 		if at+blk > len(data) {
 			blk = len(data) - at
 		}
-		switch r.Weighted([]int{25, 30, 12, 10, 10, 13}) {
+		switch r.Weighted([]int{25, 30, 12, 10, 10, 13, 4}) {
+		case 6:
+			// the final newline is missing (a file cut exactly at its last line)
+			ds = append(ds, damage{Kind: "chop-final-newline", At: len(data)})
+			data = []byte(strings.TrimRight(string(data), "\n"))
 		case 0:
+			if r.Chance(1, 2) {
+				// cut right after a delimiter: the parser has just opened or closed something
+				var cands []int
+				for i, c := range data {
+					if strings.IndexByte("]}\"'=:,>)\n", c) >= 0 {
+						cands = append(cands, i+1)
+					}
+				}
+				if len(cands) > 0 {
+					at = Pick(r, cands)
+				}
+			}
 			ds = append(ds, damage{Kind: "truncate", At: at})
 			data = append([]byte{}, data[:at]...)
 		case 1:
